@@ -188,6 +188,13 @@ class Interp:
         self.bind_args(fn, fr, pos, kw, self_obj)
         return self._run_frame(fr)
 
+    def call_repo_inline(self, target: str, pos: list, kw: dict, self_obj=None):
+        """execute the body of `target` (used by script contracts that relate several real functions)"""
+        mi, ci, fn, kind = self.index.function(target)
+        fr = Frame(target, fn, mi, ci, self.registry.get(target))
+        self.bind_args(fn, fr, pos, kw, self_obj)
+        return self._run_frame(fr)
+
     def call_by_contract(self, c: Contract, fn: ast.FunctionDef, pos: list, kw: dict, self_obj=None):
         cx = self.cx
         fr = Frame(c.target, fn, None, None, c)
@@ -553,8 +560,10 @@ class Interp:
                 if isinstance(v, (SList, SDict, SSet, SObj)):
                     heap_allowed.append((v, None))
         before = {m: fr.locals.get(m) for m in declared}
+        cx.ghost["loop_allow"] = []
         if spec.havoc is not None:
             spec.havoc(cx, env, i)
+        heap_allowed.extend((o, None) for o in cx.ghost.pop("loop_allow", []))
         for name in assigned - declared:
             fr.locals[name] = Poison(name)
         for name in declared & assigned:
@@ -573,6 +582,7 @@ class Interp:
             lf = LoopFrame(declared | assigned, heap_allowed, next_oid(), fr.target)
             cx.loop_frames.append(lf)
             broke = False
+            ev_mark = len(cx.events)
             try:
                 self.assign(s.target, it.elem(i) if it.elem is not None else cx.opaque("elem"), fr)
                 try:
@@ -590,6 +600,9 @@ class Interp:
             i1 = int_binop("+", i, 1)
             for name, f in spec.inv(cx, env, i1):
                 cx.oblige(f"{pre}:inv_pres:{name}", f, kind="inv_pres")
+            if spec.body_post is not None:
+                for name, f in spec.body_post(cx, env, i, cx.events[ev_mark:]):
+                    cx.oblige(f"{pre}:iteration:{name}", f, kind="inv_pres")
             raise PathStop()
         else:
             for x in s.orelse:
